@@ -82,6 +82,28 @@ func init() {
 	}, 0, "add(value)")
 }
 
+// M__contains__ implements "item in set"
+//
+// An unhashable item is a TypeError - except a set, which Python
+// looks up by the frozenset of its members.  Members are compared
+// with ==, as when iterating the set.
+func (s *Set) M__contains__(item Object) (Object, error) {
+	switch item.(type) {
+	case *List, StringDict:
+		return nil, ExceptionNewf(TypeError, "unhashable type: '%s'", item.Type().Name)
+	}
+	for member := range s.items {
+		eq, err := Eq(member, item)
+		if err != nil {
+			return nil, err
+		}
+		if eq == True {
+			return True, nil
+		}
+	}
+	return False, nil
+}
+
 // Add an item to the set
 //
 // Returns a TypeError if the item can't be a member of a set
